@@ -57,7 +57,7 @@ func verifC12Compare(vt *Model, vx *vaxis.Vaxis, cols, rows int, tag string) {
 			cellsOK = cellsOK && eg == g && (em.Width == w || em.Width == 0 && w == 1)
 			want := vaxis.VerifExpectStyle(vx, app.Style)
 			styleOK = styleOK && em.Foreground == want.Foreground && em.Background == want.Background && em.Attribute == want.Attribute &&
-				em.UnderlineStyle == want.UnderlineStyle && em.UnderlineColor == want.UnderlineColor && em.Hyperlink == want.Hyperlink
+				em.UnderlineStyle == want.UnderlineStyle && em.UnderlineColor == want.UnderlineColor && em.Hyperlink == want.Hyperlink && em.HyperlinkParams == want.HyperlinkParams
 			c += w
 		}
 	}
@@ -87,7 +87,12 @@ func VerifC12Frames() {
 		win.Clear()
 		for r := 0; r < rows; r++ {
 			for c := 0; c < cols; c++ {
-				sel := zzverif.Choose("cell", len(verifC12Alphabet))
+				sel := 1
+				if mode == 4 {
+					sel = zzverif.Choose("cell", 2)
+				} else if mode != 3 {
+					sel = zzverif.Choose("cell", len(verifC12Alphabet))
+				}
 				sp := verifC12Alphabet[sel]
 				zzverif.Assume(!(sp.g == "世" && c == cols-1))
 				var st vaxis.Style
@@ -99,6 +104,22 @@ func VerifC12Frames() {
 					st.Background = []vaxis.Color{0, vaxis.IndexColor(3), vaxis.RGBColor(200, 0, 0)}[zzverif.Choose("bg", 3)]
 					if zzverif.Bool("link") {
 						st.Hyperlink = "http://a"
+						st.HyperlinkParams = []string{"", "id=main", "id=x:k=v"}[zzverif.Choose("linkparams", 3)]
+					}
+				} else if sel != 0 && mode == 4 {
+					// hyperlinks: two URLs, with and without id parameters, next to each other
+					l := zzverif.Choose("link", 5)
+					st.Hyperlink = []string{"", "http://a", "http://a", "http://b", "http://a"}[l]
+					st.HyperlinkParams = []string{"", "", "id=main", "id=main", "id=x:k=v"}[l]
+				} else if mode == 3 && r == 0 && c == f%cols {
+					// any palette index: the renderer's and the emulator's boundaries between
+					// the 8 normal, 8 bright and 240 extended colours are found by the solver
+					// (foreground in the first frame, background in the second: the emulator's
+					// SGR switch forks once per listed case value)
+					if f == 0 {
+						st.Foreground = vaxis.IndexColor(zzverif.Uint8("fgi"))
+					} else {
+						st.Background = vaxis.IndexColor(zzverif.Uint8("bgi"))
 					}
 				}
 				if sel != 0 {
@@ -109,12 +130,12 @@ func VerifC12Frames() {
 				}
 			}
 		}
-		if zzverif.Bool("showCursor") {
+		if mode < 3 && zzverif.Bool("showCursor") {
 			vx.ShowCursor(zzverif.Choose("ccol", cols), zzverif.Choose("crow", rows), vaxis.CursorStyle(2*zzverif.Choose("shape", 2)))
 		} else {
 			vx.HideCursor()
 		}
-		if f == 0 || zzverif.Bool("refresh") {
+		if f == 0 || mode != 3 && zzverif.Bool("refresh") {
 			vx.Refresh()
 		} else {
 			vx.Render()
@@ -136,7 +157,8 @@ func VerifC12Frames() {
 			}
 			hc := vaxis.VerifNextCell(host, c, r)
 			want := vaxis.VerifExpectStyle(vx, app.Style)
-			hostOK = hostOK && hc.Grapheme == g && hc.Foreground == want.Foreground && hc.Background == want.Background && hc.Attribute == want.Attribute
+			hostOK = hostOK && hc.Grapheme == g && hc.Foreground == want.Foreground && hc.Background == want.Background && hc.Attribute == want.Attribute &&
+				hc.UnderlineStyle == want.UnderlineStyle && hc.Hyperlink == want.Hyperlink && hc.HyperlinkParams == want.HyperlinkParams
 			c += w
 		}
 	}
